@@ -86,6 +86,15 @@ func (c *checker) determinismSelftest(ph phase, seeds uint64) {
 	}
 	c.selftest = map[string]interface{}{"seeds": seeds, "processes": procs, "gomaxprocs": []int{1, 4, 16}, "runs": runs, "mismatches": mismatches}
 	if mismatches > 0 {
+		if u := uncontrolledSelects(c.rc.info); len(u) > 0 {
+			// the tree under test contains select statements with several cases; which ready
+			// case Go picks is the one source of nondeterminism the simulator cannot own.
+			// Runs are still legal executions; replays are attempted several times.
+			c.selftest["note"] = fmt.Sprintf("%d mismatching runs, attributed to select statements with several cases that simgen cannot make deterministic: %v", mismatches, u)
+			fmt.Printf("warning: determinism self-test: %d mismatching runs (uncontrolled select at %v); replays of this tree are attempted repeatedly\n", mismatches, u)
+			c.rc.flaky = true
+			return
+		}
 		die2("determinism self-test failed: %d mismatching runs, first: %s", mismatches, firstMismatch)
 	}
 }
@@ -474,4 +483,16 @@ func toolsimPlan() plan {
 			return finish(0)
 		},
 	}
+}
+
+func uncontrolledSelects(info *buildInfo) []string {
+	var out []string
+	if l, ok := info.Inventory["uncontrolled_sources"].([]interface{}); ok {
+		for _, e := range l {
+			if s, ok := e.(string); ok && strings.Contains(s, "select-with-several-cases") {
+				out = append(out, s)
+			}
+		}
+	}
+	return out
 }
